@@ -38,6 +38,9 @@ func appendCon(r *world.Rng, nCur, nMax int) (ref.Con, string) {
 		if len(l) < 2 {
 			return ref.Con{Lits: l, K: 1}, "clause"
 		}
+		if r.Bool(0.25) {
+			return ref.Con{Lits: l, K: len(l)}, "card" // every literal forced at once
+		}
 		return ref.Con{Lits: l, K: r.Range(1, len(l))}, "card"
 	default: // PB
 		k := r.Range(1, min(n, 5))
@@ -47,6 +50,9 @@ func appendCon(r *world.Rng, nCur, nMax int) (ref.Con, string) {
 		for i := range w {
 			w[i] = r.Range(1, 4)
 			sum += w[i]
+		}
+		if r.Bool(0.25) {
+			return ref.Con{Lits: l, Coefs: w, K: sum}, "pb" // every literal forced at once
 		}
 		return ref.Con{Lits: l, Coefs: w, K: r.Range(1, sum+r.Pick(0, 0, 1))}, "pb"
 	}
@@ -255,7 +261,7 @@ func rupTrace(r *world.Rng, n int, cl [][]int, steps int) []string {
 	chk := ref.NewRUP(n, cl)
 	var out []string
 	for i := 0; i < steps*6 && len(out) < steps; i++ {
-		c := distinctLits(r, n, r.Range(1, min(n, 3)))
+		c := distinctLits(r, n, r.Range(1, min(n, r.Pick(3, 3, 5))))
 		if chk.Check(c) {
 			out = append(out, certLine(c))
 		}
@@ -271,14 +277,24 @@ func genC08(r *world.Rng, w *world.World, big bool) {
 	t := world.TaskSpec{Kind: "cert", N: n, Clauses: cl}
 	t.Text = dimacsText(r, n, cl, true)
 	t.Entry = r.PickS("unsat-reader", "unsat-chan", "unsat-chan", "subset")
-	if t.Entry != "subset" {
+	if t.Entry != "subset" && r.Bool(0.3) {
+		// genuine solver trace on a problem large enough to need search
+		n = r.Range(8, 14)
+		cl = randKSAT(r, n, int(float64(n)*(4.2+0.8*r.Float())), 3, 3)
+		t.N, t.Clauses = n, cl
+		t.Text = dimacsText(r, n, cl, true)
+		t.Lines = []string{r.PickS("@trace", "@trace", fmt.Sprintf("@trace-drop:%d", r.Intn(1000)), fmt.Sprintf("@trace-flip:%d", r.Intn(1000)), fmt.Sprintf("@trace-remove:%d", r.Intn(1000)))}
+		t.Cap = capacity(r)
+		t.Delays = delays(r)
+		t.Chunks = chunks(r)
+	} else if t.Entry != "subset" {
 		var lines []string
 		switch r.Intn(5) {
 		case 0, 1: // RUP-derivable sequence
 			lines = rupTrace(r, n, cl, r.Range(0, 6))
 		case 2: // random clauses
 			for i := 0; i < r.Range(0, 5); i++ {
-				lines = append(lines, certLine(distinctLits(r, n, r.Range(1, min(n, 3)))))
+				lines = append(lines, certLine(distinctLits(r, n, r.Range(1, min(n, r.Pick(3, 5))))))
 			}
 			if r.Bool(0.4) {
 				lines = append(lines, "0")
